@@ -40,6 +40,9 @@ FAULTS = [
     ('reg_name_mv', 'mv x1, bogus', None, None),
     ('fence_arg', 'fence @V@ 3', ('marker', 12), lambda v: Or(v < 0, v > 15)),
     ('aq_arg', 'amoadd.w x1 x2 x3 @V@ 0', ('marker', 12), lambda v: Or(v < 0, v > 1)),
+    ('aq_float', 'amoswap.w x1 x2 x3 1.5 0', None, None),
+    ('aq_word', 'lr.w x1 x2 aq rl', None, None),
+    ('fence_word', 'fence iorw rw', None, None),
     ('db_range', 'db V', ('const', 40), lambda v: Or(v < -128, v > 255)),
     ('dh_range_lit', 'dh @V@', ('marker', 40), lambda v: Or(v < -32768, v > 65535)),
     ('pack_range', 'pack <h V', ('const', 40), lambda v: Or(v < -32768, v > 32767)),
